@@ -111,6 +111,10 @@ FIXED = [
     ("`begin_keywords \"1800-2005\"\nmodule m; wire checker; endmodule\n`end_keywords\n", True),
     ("`begin_keywords \"1364-2001-noconfig\"\nmodule m; wire config; endmodule\n`end_keywords\n", True),
     ("`begin_keywords \"1364-2001\"\nmodule m; wire config; endmodule\n`end_keywords\n", False),
+    # a word reserved only in a later standard is no keyword either (fixed in 7a74a81: corpus/C13-later-keyword.sv)
+    ("`begin_keywords \"1364-1995\"\nmodule m;\n  reg signed;\n  wire [3:0] tagged;\nendmodule\n`end_keywords\n", True),
+    ("`begin_keywords \"1364-1995\"\nmodule m; reg signed [3:0] x; endmodule\n`end_keywords\n", False),
+    ("`begin_keywords \"1364-2001\"\nmodule m; reg signed [3:0] x; endmodule\n`end_keywords\n", True),
     ("`resetall\nmodule module; endmodule\n", False), ("`define X 1\nmodule m; wire wire; endmodule\n", False),
     ("`timescale 1ns/1ps\n`celldefine\nmodule m; reg always; endmodule\n", False),
 ]
@@ -141,6 +145,21 @@ def check(ctx):
         g = G(r, words)
         t = g.program()
         progs.append((t, all(ok for _, ok in g.uses), [w for w, ok in g.uses if not ok]))
+    # sweep: every word of every table where only an identifier can stand (inside a region naming the table, and by
+    # default), and every word reserved only later as an identifier
+    latest = words.get("KEYWORDS_1800_2017", set())
+    for spec in [None] + SPECS:
+        tab = words.get(table_name(spec) if spec else "KEYWORDS_1800_2017", set())
+        ws_in = sorted(tab)
+        ws_later = sorted(latest - tab)
+        if q:
+            ws_in = ws_in if spec is None else r.sample(ws_in, min(40, len(ws_in)))
+            ws_later = r.sample(ws_later, min(25, len(ws_later)))
+        for w, exp in [(w, False) for w in ws_in] + [(w, True) for w in ws_later]:
+            t = "module m; wire %s; endmodule\n" % w
+            if spec:
+                t = "`begin_keywords \"%s\"\n%s`end_keywords\n" % (spec, t)
+            progs.append((t, exp, [w]))
     cases = []
     for i, (t, exp, _) in enumerate(progs):
         c = Case("k%d" % i)
